@@ -34,6 +34,9 @@ SOURCES = [
     # module-level variables named like the parameters / locals of the other sources, and the other way round
     ("globals-named-like-locals", "int a;\nfloat x;\nint t;\nint i;\nint v;\nfloat3 w;\nfloat3 r;\nexport function f(int q) -> int { a = q; t = a + 1; i = t; v = i; x = 0.5; return t + v; }\n"),
     ("locals-named-like-globals", "export function f(int g0, float gs) -> float { int ga = g0 + 1; float n = gs; return ga + n; }\n"),
+    # a long bracket-free sum and a deeply nested source (how much stack a compilation finds must not depend on earlier ones)
+    ("long-sum", "export function f(int a) -> int { return " + " + ".join(["a"] * 150) + "; }\n"),
+    ("deep-nesting", "export function f(int a) -> int { " + "".join("if (a > %d) { " % k for k in range(40)) + "a = a + 1; " + "} " * 40 + "return a; }\n"),
     ("imports-with-clashing-struct", 'import "ld";\nimport "le";\nimport "lf";\nexport function f(int a) -> float { Light l; l.intensity = a; return l.intensity; }\n'),
     # parameters without a name (placeholder names), twice, in different positions
     ("unnamed-parameters", "function g(float x, int) -> float { return x * 2.0; }\nfunction h(int, float, int q) -> int { return q + 1; }\nexport function f(int a, float x) -> float { return g(x, a) + h(a, x, a); }\n"),
@@ -223,7 +226,7 @@ def run_history(root, hist):
 
 def main():
     root, work, mode, outp = sys.argv[1:5]
-    sys.setrecursionlimit(10000)
+    # the interpreter's default recursion limit stays: it is process state an earlier compilation could change
     sys.path.insert(0, os.path.dirname(os.path.dirname(os.path.abspath(__file__))))
     from nslmc import fastarena, snapshot
     fastarena.install()
